@@ -155,3 +155,10 @@ pub use read::*;
 #[doc(inline)]
 pub use util::{copy, null, repeat, split::split};
 pub use write::*;
+
+/// Re-exports for the contract-verification harnesses under /verif (never compiled otherwise).
+#[cfg(compio_rs_compio_verif)]
+#[doc(hidden)]
+pub mod verif_export {
+    pub use crate::buffer::Buffer;
+}
